@@ -60,6 +60,33 @@ def comps(tier):
                 key = "|".join(map(str, cell)) + f"|{xid}|L{li}"
                 out.append((key, comp))
                 sname = comp["solver"]["name"]
+                if "p0" in R.KNOBS.get(sname, {}) and not grouped and xid == "tall6x3":
+                    # every penalty with a working set of one feature: index j of the feature vs position idx in the working set
+                    out.append((key + "|p0=1", dict(comp, solver=dict(name=sname, kw=dict(comp["solver"]["kw"], p0=1)))))
+                    w0 = [0.0, 0.0, 1.5] + ([0.25] if comp["solver"]["kw"].get("fit_intercept") else [])
+                    if sname != "LBFGS" and dname not in ("QuadraticSVC", "QuadraticMultiTask", "Cox"):
+                        # ... and from a warm start supported on the last feature only (the working set is {last feature})
+                        out.append((key + "|p0=1|warm", dict(comp, solver=dict(name=sname, kw=dict(comp["solver"]["kw"], p0=1)), w_init=w0)))
+                        # ... the same with that last feature an all-zero column (zero-curvature branches of the epochs)
+                        Xz = A.Z()["tall6x3-zerolast"]
+                        out.append((key + "|p0=1|warm|zerolast", dict(comp, X=Xz.tolist(), xid="tall6x3-zerolast",
+                                                                      solver=dict(name=sname, kw=dict(comp["solver"]["kw"], p0=1)), w_init=w0)))
+                    if ps.get("positive") is False:
+                        # the positivity option of the same penalty (other branches of prox / score), working set of one feature
+                        out.append((key + "|p0=1|positive", dict(comp, penalty=dict(ps, positive=True),
+                                                                 solver=dict(name=sname, kw=dict(comp["solver"]["kw"], p0=1)))))
+                if "p0" in R.KNOBS.get(sname, {}) and (grouped or pname in ("L1", "WeightedL1")) and xid == "wide3x5":
+                    pass
+                if "p0" in R.KNOBS.get(sname, {}) and not grouped and xid == "tall6x3" and ps.get("positive") is False and dname == "Quadratic":
+                    # positivity, 5 features, working sets of two features {the supported one, a zero one at any index}: a zero coefficient at
+                    # feature index j >= len(ws) exercises every 'w_j == 0' branch of the scores with idx != j
+                    Xw5 = DESIGNS["wide3x5"]
+                    y5 = R.targets(kind, Xw5, "quick")[0][1]
+                    for i in range(5):
+                        w5 = [0.0] * 5 + ([0.25] if comp["solver"]["kw"].get("fit_intercept") else [])
+                        w5[i] = 1.5
+                        out.append((key + f"|p0=1|positive|wide|e{i}", dict(comp, X=Xw5.tolist(), y=y5.tolist(), xid="wide3x5", penalty=dict(c13.pspec_for(pname, 5), positive=True),
+                                                                            solver=dict(name=sname, kw=dict(comp["solver"]["kw"], p0=1)), w_init=w5)))
                 if "p0" in R.KNOBS.get(sname, {}) and (grouped or pname in ("L1", "WeightedL1")) and xid == "wide3x5":
                     # working sets strictly smaller than the number of features / groups
                     c1 = dict(comp, solver=dict(name=sname, kw=dict(comp["solver"]["kw"], p0=1)))
